@@ -299,13 +299,57 @@ func runC15(h *hz.H) {
 		}
 		h.Eval(true, hz.HashBytes([]byte("skiprec+"), r))
 	}
+	// 7. Skip: every sequence of wire *tokens* (tags of every wire type, adversarial varints, filler
+	// bytes) up to a length: reaches inputs such as "group start, length-delimited tag, huge length"
+	// that are longer than the byte-level bound.
+	var toks [][]byte
+	for _, num := range []protowire.Number{1, 2} {
+		for wt := 0; wt < 8; wt++ {
+			toks = append(toks, protowire.AppendVarint(nil, uint64(num)<<3|uint64(wt)))
+		}
+	}
+	for _, v := range []uint64{0, 1, 2, 4, 8, 127, 128, 1<<31 - 1, 1 << 31, 1<<32 - 1, 1 << 32, 1<<63 - 1, 1<<63 - 8, 1 << 63, 1<<64 - 1} {
+		toks = append(toks, protowire.AppendVarint(nil, v))
+	}
+	toks = append(toks, []byte{0xff, 0xff, 0xff, 0xff, 0xff, 0xff, 0xff, 0xff, 0xff, 0x7f}, []byte{0x80, 0x80, 0x80, 0x80, 0x80, 0x80, 0x80, 0x80, 0x80, 0x80, 0x01},
+		[]byte{0xff, 0xff, 0xff, 0xff, 0xff, 0xff, 0xff, 0xff, 0x7f}, []byte{0xaa, 0xbb, 0xcc, 0xdd}, []byte{0x11, 0x22, 0x33, 0x44, 0x55, 0x66, 0x77, 0x88})
+	TL := 4
+	if h.Thorough() {
+		TL = 5
+	}
+	h.Rep.Bounds["skip_token_alphabet"] = len(toks)
+	h.Rep.Bounds["skip_token_sequences_maxlen"] = TL
+	for l := 1; l <= TL; l++ {
+		total := uint64(1)
+		for i := 0; i < l; i++ {
+			total *= uint64(len(toks))
+		}
+		l := l
+		h.ParChunks(total, 1<<14, fmt.Sprintf("skip token sequences len=%d", l), func(lo, hi uint64) {
+			var buf []byte
+			for i := lo; i < hi; i++ {
+				buf = buf[:0]
+				j := i
+				for p := 0; p < l; p++ {
+					buf = append(buf, toks[j%uint64(len(toks))]...)
+					j /= uint64(len(toks))
+				}
+				if _, wf := checkSkip(h, buf); wf {
+					wellFormed.Add(1)
+				}
+			}
+			h.EvalN(int64(hi - lo))
+			h.DistinctN(int64(hi - lo))
+		})
+	}
+	h.Sample(map[string]interface{}{"kind": "skip-tokens", "bytes_hex": "0b0affffffffffffffff7f"})
 	h.Sample(map[string]interface{}{"kind": "skip", "bytes_hex": hex.EncodeToString(g)})
 	h.Sample(map[string]interface{}{"kind": "skip", "bytes_hex": "0b0c"})
 	h.AddExtra("skip_inputs_protowire_accepts", wellFormed.Load())
 	if wellFormed.Load() < 1000 {
 		h.InternalError("vacuous: fewer than 1000 well-formed Skip inputs")
 	}
-	h.Rep.Rule = "dense sweep: every x below the bound (distinct by construction) for Sov/Soz, incl. the sign-extended twin of each 32-bit pattern; boundary set 2^k-1,2^k,2^k+1,negations,complements; EncodeVarint: boundary values x every offset of a 24-byte sentinel buffer (non-trivial = the varint fits); Skip: every byte string of length<=3 (all 256 values) and every string over the reduced alphabet up to the stated length (distinct by construction), plus truncations of long well-formed records"
+	h.Rep.Rule = "dense sweep: every x below the bound (distinct by construction) for Sov/Soz, incl. the sign-extended twin of each 32-bit pattern; boundary set 2^k-1,2^k,2^k+1,negations,complements; EncodeVarint: boundary values x every offset of a 24-byte sentinel buffer (non-trivial = the varint fits); Skip: every byte string of length<=3 (all 256 values), every string over the reduced alphabet up to the stated length, every sequence of wire tokens (16 tags, 15 boundary varints, overlong varints, fixed fillers) up to the stated length (all distinct by construction), plus truncations of long well-formed records"
 	h.Rep.Assumptions = []string{"google.golang.org/protobuf/encoding/protowire v1.34.0 is the wire-format reference"}
 }
 
